@@ -10,7 +10,12 @@ RULE = ("seeded scenarios of 1-3 producers (unique values), 1-4 consumers (`asyn
         "and a final closer on one Channel; run fault-free and once per (participant, kind in "
         "cancel/interrupt/close, kernel event). Non-trivial = at least one consumer received a "
         "message; distinct = distinct sequence of (actor, channel event, value) plus fault "
-        "position.")
+        "position."
+        " A fifth of the scenarios are `mixed` programs (usimdst/mixed.py): two locks, a "
+        "queue, a channel and a capacity supply used by the same activities in nested "
+        "blocks. After the single-fault sweep, seeded pairs of cancels and seeded fault "
+        "sequences of mixed kinds (2-3 victims, each with its own kind) are run as well; "
+        "a tenth of the budget runs under python -O.")
 BUDGET = {"quick": {"cases": 400, "wall_s": 240, "chunk": 2, "per_group": 25},
           "thorough": {"cases": 4000, "wall_s": 1500, "chunk": 5, "per_group": 400}}
 ASSUMPTIONS = ["a consumer is subscribed from the activation in which its iteration / await "
